@@ -527,13 +527,23 @@ func TestC07Backpressure(t *testing.T) {
 				}
 			}
 		}
+		// while still backlogged the stalled connection issues another REQ: it must be
+		// answered by EOSE once the peer reads again (every REQ is answered by EOSE)
+		lateReq := rapid.Bool().Draw(t, "late_req")
+		if lateReq {
+			if err := stalled.put(&mocrelay.ClientReqMsg{SubscriptionID: "late", ReqFilters: []*mocrelay.ReqFilter{{Kinds: []int64{7}}}}, 10*time.Second); err != nil {
+				failf("stalled", "the router takes a REQ from a backlogged connection", err.Error(), "")
+			}
+			time.Sleep(time.Millisecond)
+		}
 		// the stalled subscriber, once it reads again: an in-order duplicate-free subsequence of >= b events
 		stalled.stall.Store(false)
 		var late []string
+		lateEOSE := 0
 		for {
 			// wait generously for the first `buffer` events, then until 5 ms of silence
 			wait := 5 * time.Millisecond
-			if len(late) < b {
+			if len(late) < b || (lateReq && lateEOSE == 0 && len(late) < b+2) {
 				wait = 2 * time.Second
 			}
 			m, ok := stalled.next(wait)
@@ -543,6 +553,12 @@ func TestC07Backpressure(t *testing.T) {
 			if em, is := m.(*mocrelay.ServerEventMsg); is {
 				late = append(late, em.Event.ID)
 			}
+			if eo, is := m.(*mocrelay.ServerEOSEMsg); is && eo.SubscriptionID == "late" {
+				lateEOSE++
+			}
+		}
+		if lateReq && lateEOSE != 1 {
+			failf("no-eose", "every REQ is answered by EOSE (REQ sent while the connection's delivery buffer was full)", fmt.Sprintf("%d EOSE for the late REQ", lateEOSE), "1")
 		}
 		all := map[string]int{}
 		pos := 0
